@@ -181,10 +181,10 @@ theorem ie_step (cfg : Cfg) (fuel : Nat) (hV : IV cfg fuel) (hE : IE cfg fuel) :
     rw [← List.append_assoc, hx]; simp
 
 /-- an unquoted key `a` and the value `0`: the member that completes an object after a comma -/
-theorem member_a0 (cfg : Cfg) (L : Nat) {w : List Byte} (hw : DWs cfg w) :
+theorem member_a0 (cfg : Cfg) (L : Nat) {w : List Byte} (hw : DWs cfg w) (h1 : 1 ≤ cfg.maxStrLen) :
     Members cfg L (w ++ [0x61] ++ [] ++ 0x3A :: [] ++ [0x30] ++ []) [([0x61], .num (.uint 0))] :=
   Members.one L w [0x61] [0x61] [] [] [0x30] _ [] hw
-    (Key.bare [0x61] (by simp) (by intro c hc; simp at hc; subst hc; decide)) DWs.nil DWs.nil (value_zero cfg L) DWs.nil
+    (Key.bare [0x61] (by simp) (by intro c hc; simp at hc; subst hc; decide) h1) DWs.nil DWs.nil (value_zero cfg L) DWs.nil
 
 set_option maxRecDepth 8000 in
 theorem im_step (cfg : Cfg) (fuel : Nat) (hV : IV cfg fuel) (hM : IM cfg fuel) : IM cfg (fuel + 1) := by
@@ -205,11 +205,16 @@ theorem im_step (cfg : Cfg) (fuel : Nat) (hV : IV cfg fuel) (hM : IM cfg fuel) :
         exact ⟨(cur s).1 :: body ++ [(cur s).1], r', by simp, Key.quoted _ _ _ hq' g2 g4, g5⟩
       · split at hkey
         · rename_i hu
-          obtain ⟨_, hk, hs⟩ := tuple_ok hkey
+          obtain ⟨hcode, hk, hs⟩ := tuple_ok hkey
+          have hlen : key.length ≤ cfg.maxStrLen := by
+            rw [← hk]
+            by_cases hh : (parseUnquoted (fuel + 1) [] (cur s).2).1.length > cfg.maxStrLen
+            · rw [if_pos hh] at hcode; cases hcode
+            · omega
           obtain ⟨x, r', g1, g2, g3, g4⟩ := parseUnquoted_sound _ _ _ _ _ _ k1 (Prod.ext hk hs)
           simp only [List.reverse_nil, List.nil_append] at g2
           subst g2
-          refine ⟨key, r', g1, Key.bare _ ?_ g3, g4⟩
+          refine ⟨key, r', g1, Key.bare _ ?_ g3 hlen, g4⟩
           intro hnil
           rw [hnil] at hk
           simp only [parseUnquoted, cur_cur, hu, ↓reduceIte] at hk
@@ -257,7 +262,7 @@ theorem im_step (cfg : Cfg) (fuel : Nat) (hV : IV cfg fuel) (hM : IM cfg fuel) :
                   refine ⟨kt ++ w2 ++ 0x3A :: w3 ++ t ++ w4 ++ 0x2C :: a, x ++ [0x61, 0x3A, 0x30, 0x7D],
                     [] ++ kt ++ w2 ++ 0x3A :: w3 ++ t ++ w4 ++ 0x2C :: ((a ++ x) ++ [0x61] ++ [] ++ 0x3A :: [] ++ [0x30] ++ []),
                     _, ?_, ?_,
-                    Members.cons _ _ _ _ _ _ _ _ _ _ _ DWs.nil hkt b2 c2 c3 d2 (member_a0 cfg limit hd)⟩
+                    Members.cons _ _ _ _ _ _ _ _ _ _ _ DWs.nil hkt b2 c2 c3 d2 (member_a0 cfg limit hd (by omega))⟩
                   · rw [hc', hcm']
                     have := ((((ha.cons (c := 0x2C)).prepend w4).prepend t).prepend w3).cons (c := 0x3A)
                       |>.prepend w2 |>.prepend kt
@@ -302,7 +307,8 @@ theorem im_step (cfg : Cfg) (fuel : Nat) (hV : IV cfg fuel) (hM : IM cfg fuel) :
         [] ++ ((cur s).1 :: (a ++ x) ++ [(cur s).1]) ++ [] ++ 0x3A :: [] ++ [0x30] ++ [], _, ha.cons, by simp,
         Members.one _ _ _ _ _ _ _ _ _ DWs.nil (Key.quoted _ _ _ hq' hy hl) DWs.nil DWs.nil (value_zero cfg limit) DWs.nil⟩
     · split at hkey
-      · cases (tuple_eq3 hkey).1
+      · have hc := (tuple_eq3 hkey).1
+        split at hc <;> cases hc
       · cases (tuple_eq3 hkey).1
 
 /-- **every `IncompleteInput` of the three routines can be completed** -/
